@@ -2,6 +2,7 @@
 import json
 import os
 
+import sessioncheck
 import vf
 
 CFG = "CONSTANT Deep = %s\nINIT Init\nNEXT Next\nINVARIANT Emit\nINVARIANT FirstMarker\nCHECK_DEADLOCK FALSE\n"
@@ -37,11 +38,18 @@ def run(ctx):
         ctx.report("filterHTML(%s body %s): %s: tag expected at %s, found at %s; declared length %s, real %s" % (
             m["encoding"] or "plain", m["case"]["body"], m["why"], m["expected_at"], m["got_tag_at"], m["declared_len"], m["got_len"]),
             {"reexec": ["replay-proxy"], "input": [m["case"]]}, {"cause": m["why"].split(":")[0]})
+    # ---- the exchange around the filter: which responses get filtered at all (spec/ProxySession.tla, real proxy on loopback) ----
+    ctx.rule += ("; around the filter: every canonical exchange of ProxySession.tla (request header classes x origin Content-Type x rule "
+                 "set) and the content-script endpoint's parameter cases replayed through a real proxy.Server on the loopback interface, "
+                 "plus seeded random exchanges validated by Trace_ProxySession")
+    sessioncheck.run(ctx)
 
 
 def replay(ctx, path):
     ctx.build()
     obj = json.load(open(path))
+    if obj.get("reexec") == ["replay-session"]:
+        return sessioncheck.replay(ctx, obj)
     s, mism = replay_cases(ctx, obj["input"])
     print(json.dumps({"mismatches": mism[:4]}, indent=1)[:3000])
     return 1 if mism else 0
